@@ -283,6 +283,9 @@ class Engine:
         """a python literal (from module constants / extraction) as a term; containers are allocated"""
         if c is None or isinstance(c, (bool, int, float, str)):
             return self.ev_Constant(ast.Constant(c), ec)
+        if isinstance(c, (list, tuple, set, frozenset)) and all(x is None or isinstance(x, (bool, int, float, str)) for x in c):
+            items = sorted(c, key=repr) if isinstance(c, (set, frozenset)) else list(c)
+            return T("lit", [self.py_const(x, ec) for x in items], "tuple" if isinstance(c, tuple) else "set" if isinstance(c, (set, frozenset)) else "list")
         if isinstance(c, (list, tuple)):
             return self.alloc_list([self.py_const(x, ec) for x in c], ec, "tuple" if isinstance(c, tuple) else "list")
         if isinstance(c, (set, frozenset)):
@@ -341,7 +344,14 @@ class Engine:
             self.dict_set(ec, r, toV(k), toV(v) if v is not None else V.none)
         return tV(V.ref(r))
 
+    def check_write(self, ec, r):
+        fx = getattr(ec, "fx", None)
+        if fx is not None and getattr(fx, "contract", None) is not None and fx.contract.opts.get("value_mode"):
+            self.emit(fx, "frame", getattr(ec, "line", 0), ec.st, z3.Implies(ec.g(), r >= FRONT),
+                      note="value mode: only objects created by this call tree are written")
+
     def dict_set(self, ec, r, k, v):
+        self.check_write(ec, r)
         h = ec.st.heap
         a = dict(h.a)
         had = a["dhas"][r][k]
@@ -355,6 +365,7 @@ class Engine:
         h.a = a2
 
     def dict_del(self, ec, r, k):
+        self.check_write(ec, r)
         h = ec.st.heap
         a = dict(h.a)
         a2 = dict(a)
@@ -367,6 +378,7 @@ class Engine:
             ec.assume(f)
 
     def list_set_all(self, ec, r, n, arr):
+        self.check_write(ec, r)
         h = ec.st.heap
         a = dict(h.a)
         a["lel"] = z3.Store(a["lel"], r, arr)
@@ -390,6 +402,8 @@ class Engine:
     def mat(self, x, ec):
         """materialise a literal in the heap"""
         if x.k == "lit":
+            if x.meta == "set":
+                return self.alloc_dict([(y, None) for y in x.t], ec, "set")
             return self.alloc_list(x.t, ec, x.meta)
         return x
 
@@ -936,7 +950,34 @@ class Engine:
             ec2.reveal = True
             return T(sp["res"], self.spec_body(sp["fn"].body, ec2, sp["res"]))
         hp = ec.st.heap.spec_args() if sp["heap"] else []
+        if sp["heap"]:
+            self.frame_axiom(name, sp, ec)
         return T(sp["res"], sp["f"](*(hp + zs)))
+
+    def frame_axiom(self, name, sp, ec):
+        """A-FRAME (value mode): a spec function applied to *input* values (objects below FRONT, closed under membership
+        by acyclic()) reads only input objects; value mode never writes those (checked by the `frame` obligations), hence its
+        value in any later heap equals its value in the entry heap."""
+        fx = getattr(ec, "fx", None)
+        if fx is None or getattr(fx, "contract", None) is None or not fx.contract.opts.get("value_mode"):
+            return
+        h, h0 = ec.st.heap, self.h0
+        if all(h.a[n].eq(h0.a[n]) for n in SPEC_HEAP):
+            return
+        key = (name,) + tuple(h.a[n].get_id() for n in SPEC_HEAP)
+        done = ec.st.ghost.setdefault("_frames", set())
+        if key in done:
+            return
+        done.add(key)
+        qs = [z3.Const("fa_%s" % pn, KIND_SORT[k]) for pn, k in sp["params"]]
+        inp = [z3.Implies(is_ref(q), z3.And(V.rv(q) >= 0, V.rv(q) < FRONT)) for q, (_, k) in zip(qs, sp["params"]) if k == "V"]
+        lhs = sp["f"](*(h.spec_args() + qs))
+        rhs = sp["f"](*(h0.spec_args() + qs))
+        from .tr import forall as _forall
+        ec.st.assume(_forall(qs, z3.Implies(z3.And(inp) if inp else z3.BoolVal(True), lhs == rhs), [lhs]))
+        self.assumptions.add("A-FRAME: in value-mode functions a spec function applied to input values has the same value in every "
+                             "later heap as in the entry heap (inputs are never written: `frame` obligations; inputs are closed under "
+                             "membership: acyclic())")
 
     def sp_old(self, e, ec):
         if ec.old is None:
